@@ -226,6 +226,10 @@ func (ls *List) Map(ctx context.Context, fn Object) Object {
 	var numParameters int
 	switch obj := fn.(type) {
 	case *Builtin:
+		ctx, ok := nestBuiltinCallback(ctx)
+		if !ok {
+			return EvalErrorf("eval error: list.map() builtin callbacks nested too deeply")
+		}
 		result := make([]Object, 0, len(ls.items))
 		for _, value := range ls.items {
 			outputValue := obj.fn(ctx, value)
@@ -279,6 +283,12 @@ func (ls *List) Filter(ctx context.Context, fn Object) Object {
 	default:
 		return TypeErrorf("type error: list.filter() expected a function (%s given)", obj.Type())
 	}
+	if _, isBuiltin := fn.(*Builtin); isBuiltin {
+		var ok bool
+		if ctx, ok = nestBuiltinCallback(ctx); !ok {
+			return EvalErrorf("eval error: list.filter() builtin callbacks nested too deeply")
+		}
+	}
 	filterArgs := make([]Object, 1)
 	var result []Object
 	for _, value := range ls.items {
@@ -313,6 +323,12 @@ func (ls *List) Each(ctx context.Context, fn Object) Object {
 		// Nothing do do here
 	default:
 		return TypeErrorf("type error: list.each() expected a function (%s given)", obj.Type())
+	}
+	if _, isBuiltin := fn.(*Builtin); isBuiltin {
+		var ok bool
+		if ctx, ok = nestBuiltinCallback(ctx); !ok {
+			return EvalErrorf("eval error: list.each() builtin callbacks nested too deeply")
+		}
 	}
 	eachArgs := make([]Object, 1)
 	for _, value := range ls.items {
